@@ -1,2 +1,216 @@
+"""C12 deep rule R2: the five oracles interpreted on operator skeletons over opaque leaves and
+compared with the structural definitions (an independent reference implementation on the abstract
+term)."""
+from ..common import get_repo, parallel_map
+from .. import proc, refsem
+from .. import simpcheck as sc
+
+ORACLES = ["free", "atoms", "qf", "types", "size0", "size1", "size2", "size3", "size4", "size5"]
+BOOL_CONN = {"AND", "OR", "NOT", "IMPLIES", "IFF"}
+RELS = {"EQUALS", "LE", "LT", "BV_ULT", "BV_ULE", "BV_SLT", "BV_SLE", "STR_CONTAINS", "STR_PREFIXOF", "STR_SUFFIXOF"}
+
+
+# ------------------------------------------------------------------------------------ reference definitions
+def ref_atoms(w, n):
+    """None for a theory term, else the set of atoms."""
+    op = w.opname(n)
+    if op in BOOL_CONN or op in ("FORALL", "EXISTS"):
+        out = set()
+        for a in w.nargs(n):
+            r = ref_atoms(w, a)
+            out |= (r or set())
+        return out
+    if op in RELS:
+        return {n}
+    if op == "BOOL_CONSTANT":
+        return set()
+    if op == "SYMBOL":
+        return {n} if w.nsort(n) == refsem.BOOL else None
+    if op == "FUNCTION" or op == "ARRAY_SELECT":
+        return {n} if w.nsort(n) == refsem.BOOL else None
+    if op == "ITE":
+        rs = [ref_atoms(w, a) for a in w.nargs(n)]
+        if any(r is None for r in rs):
+            return None
+        return set().union(*rs)
+    return None
+
+
+def ref_qf(w, n):
+    stack = [n]
+    while stack:
+        x = stack.pop()
+        if w.opname(x) in ("FORALL", "EXISTS"):
+            return False
+        stack.extend(w.nargs(x))
+    return True
+
+
+def _expand(sort, out):
+    out.add(sort)
+    if sort[0] == "ARRAY":
+        _expand(sort[1], out)
+        _expand(sort[2], out)
+    if sort[0] == "FUN":
+        _expand(sort[1], out)
+        for p in sort[2]:
+            _expand(p, out)
+
+
+def ref_types(w, n):
+    out = set()
+    stack = [n]
+    seen = set()
+    while stack:
+        x = stack.pop()
+        if id(x) in seen:
+            continue
+        seen.add(id(x))
+        op = w.opname(x)
+        if op == "SYMBOL":
+            _expand(w.nsort(x), out)
+        elif op.endswith("_CONSTANT"):
+            _expand(w.nsort(x), out)
+        elif op == "FUNCTION":
+            fs = w.sort_of_tyobj(w.npayload(w.npayload(x))[1])
+            _expand(fs[1], out)
+            for p in fs[2]:
+                _expand(p, out)
+        elif op in ("FORALL", "EXISTS"):
+            for v in w.npayload(x):
+                _expand(w.nsort(v), out)
+        elif op == "ARRAY_VALUE":
+            _expand(w.sort_of_tyobj(w.npayload(x)), out)
+        stack.extend(w.nargs(x))
+    return out
+
+
+def ref_size(w, n, measure):
+    if measure == 0:      # tree nodes
+        return 1 + sum(ref_size(w, a, 0) for a in w.nargs(n))
+    if measure == 1:      # dag nodes
+        seen = set()
+        stack = [n]
+        while stack:
+            x = stack.pop()
+            if id(x) in seen:
+                continue
+            seen.add(id(x))
+            stack.extend(w.nargs(x))
+        return len(seen)
+    if measure == 2:      # leaves of the tree
+        a = w.nargs(n)
+        return 1 if not a else sum(ref_size(w, x, 2) for x in a)
+    if measure == 3:      # depth
+        a = w.nargs(n)
+        return 1 + (max(ref_size(w, x, 3) for x in a) if a else 0)
+    if measure == 4:      # distinct symbols
+        seen = set()
+        stack = [n]
+        vis = set()
+        while stack:
+            x = stack.pop()
+            if id(x) in vis:
+                continue
+            vis.add(id(x))
+            if w.opname(x) == "SYMBOL":
+                seen.add(id(x))
+            stack.extend(w.nargs(x))
+        return len(seen)
+    if measure == 5:      # Boolean dag: theory relations are leaves
+        seen = set()
+        stack = [n]
+        while stack:
+            x = stack.pop()
+            if id(x) in seen:
+                continue
+            seen.add(id(x))
+            if w.opname(x) in RELS:
+                continue
+            stack.extend(w.nargs(x))
+        return len(seen)
+
+
+def _names(w, nodes):
+    return sorted(sc.node_str(w, x) for x in nodes)
+
+
+def _job(job):
+    which, shape = job
+
+    def call(w, it, f):
+        env = w.env
+        if which == "free":
+            o = w.new_walker("pysmt.oracles.FreeVarsOracle", env)
+            return it.call(it.getattr(o, "get_free_variables"), [f])
+        if which == "atoms":
+            o = w.new_walker("pysmt.oracles.AtomsOracle", env)
+            return it.call(it.getattr(o, "get_atoms"), [f])
+        if which == "qf":
+            o = w.new_walker("pysmt.oracles.QuantifierOracle", env)
+            return it.call(it.getattr(o, "is_qf"), [f])
+        if which == "types":
+            o = w.new_walker("pysmt.oracles.TypesOracle", env)
+            return it.call(it.getattr(o, "get_types"), [f])
+        m = int(which[4:])
+        o = w.new_walker("pysmt.oracles.SizeOracle", env)
+        return it.call(it.getattr(o, "get_size"), [f, m])
+
+    def post(w, f, r, facts):
+        if which == "free":
+            exp = w.free_symbols(f)
+            got = set(r)
+            if got == set(exp):
+                return proc.ProcResult(shape, "valid", "free symbols %s" % _names(w, exp))
+            return proc.ProcResult(shape, "invalid", "free symbols reported %s, by definition %s" % (_names(w, got), _names(w, exp)))
+        if which == "atoms":
+            exp = ref_atoms(w, f)
+            if exp is None:
+                return proc.ProcResult(shape, "vacuous", "not a Boolean formula")
+            got = set(r)
+            if got == exp:
+                return proc.ProcResult(shape, "valid", "atoms %s" % _names(w, exp))
+            return proc.ProcResult(shape, "invalid", "atoms reported %s, by definition %s" % (_names(w, got), _names(w, exp)))
+        if which == "qf":
+            exp = ref_qf(w, f)
+            if bool(r) == exp:
+                return proc.ProcResult(shape, "valid", "quantifier free: %s" % exp)
+            return proc.ProcResult(shape, "invalid", "is_qf reports %s, the term %s a quantifier" % (r, "contains" if not exp else "has no"))
+        if which == "types":
+            exp = ref_types(w, f)
+            got = set(w.sort_of_tyobj(t) for t in r)
+            if got == exp:
+                return proc.ProcResult(shape, "valid", "sorts %s" % sorted(map(str, exp)))
+            return proc.ProcResult(shape, "invalid", "sorts reported %s, by definition %s (missing %s, extra %s)"
+                                   % (sorted(map(str, got)), sorted(map(str, exp)), sorted(map(str, exp - got)), sorted(map(str, got - exp))))
+        m = int(which[4:])
+        exp = ref_size(w, f, m)
+        if r == exp:
+            return proc.ProcResult(shape, "valid", "measure %d = %d" % (m, exp))
+        return proc.ProcResult(shape, "invalid", "size measure %d reported %r, by definition %d" % (m, r, exp))
+    res = proc.run_proc(shape, call, post=post)
+    return [(which, repr(shape), r.kind, str(r.detail)) for r in res]
+
+
 def run(ctx):
-    pass
+    if not ctx.want("R2"):
+        return
+    rs = ctx.rule("R2", "oracles agree with the structural definitions (per operator skeleton)")
+    shapes = proc.term_shapes() + proc.quantified_shapes() + proc.boolean_shapes(depth2=False)
+    jobs = [(o, sh) for sh in shapes for o in ORACLES]
+    outs = parallel_map(_job, jobs)
+    label = {"free": "FreeVarsOracle", "atoms": "AtomsOracle", "qf": "QuantifierOracle", "types": "TypesOracle"}
+    for res in outs:
+        for which, shape, kind, detail in res:
+            name = label.get(which, "SizeOracle[%s]" % which[4:])
+            if kind == "valid":
+                rs.ok({"oracle": name, "shape": shape, "answer": detail})
+            elif kind == "vacuous":
+                continue
+            elif kind == "invalid":
+                ctx.finding(rs, "%s|%s" % (name, shape), "%s on %s: %s" % (name, shape, detail), "pysmt/oracles.py")
+            elif kind == "raises":
+                ctx.finding(rs, "%s|%s|raises" % (name, shape), "%s raises on %s: %s" % (name, shape, detail), "pysmt/oracles.py")
+            else:
+                rs.unrec("%s(%s): %s" % (name, shape, detail[:120]))
+    ctx.floor(rs, 500)
